@@ -237,6 +237,19 @@ fn main() {
     run_batch(&args, |case, prog| {
         let src = case["src"].as_str().unwrap();
         let want_eval = case.get("eval").and_then(|b| b.as_bool()).unwrap_or(false);
+        let want_mir = case.get("mir").and_then(|b| b.as_bool()).unwrap_or(false);
+        // C03 (static part): the MIR the compiler emits for this script, as JSON
+        let mir: Value = if want_mir {
+            match roto::verif::mir_json(FileTree::test_file("sem.roto", src, 0), &rt) {
+                Ok(j) => serde_json::from_str(&j).unwrap_or(Value::Null),
+                Err(_) => Value::Null,
+            }
+        } else {
+            Value::Null
+        };
+        if case.get("mir_only").and_then(|b| b.as_bool()).unwrap_or(false) {
+            return json!({"compile": if mir.is_null() { "err" } else { "ok" }, "mir": mir, "calls": []});
+        }
         // C20: lower once; the evaluator borrows the lowered program, codegen consumes it
         let lowered = match roto::verif::lower(FileTree::test_file("sem.roto", src, 0), &rt) {
             Ok(l) => l,
@@ -295,6 +308,6 @@ fn main() {
             }
             out.push(o);
         }
-        json!({"compile": "ok", "calls": out})
+        json!({"compile": "ok", "calls": out, "mir": mir})
     });
 }
